@@ -280,6 +280,10 @@ class ClassParser(BaseParser):
 
             context = self.options.make_context(_obj_self.__class__, force_error=True)
             value = field.parse_value(value, context=context)
+            if unprovided(value):
+                # the value was excluded (on_error / invalid_values = 'exclude') and there is no default:
+                # nothing to store, as when the instance is initialized
+                return
             _obj_self.__dict__[field.attname] = value
             if callable(post_setattr):
                 post_setattr(_obj_self, field, value, context)
@@ -452,7 +456,7 @@ class ClassParser(BaseParser):
                 if field.property:
                     try:
                         field.property.fset(
-                            instance, values[key]
+                            instance, value
                         )  # call the original setter
                         # setattr(instance, field.attname, values[key])
                     except Exception as e:
@@ -606,7 +610,12 @@ def init_dataclass(
     inst.__context__ = new_context
 
     # if parser.init_parser:
-    cls.__init__(inst, **data)
+    if isinstance(getattr(cls.__init__, "__parser__", None), ClassParser):
+        # the generated initializer takes the mapping as it is: spreading it over its signature
+        # would let input keys named like its own parameters ('_d', '_obj_self') be swallowed
+        cls.__init__(inst, data)
+    else:
+        cls.__init__(inst, **data)
 
     return inst
 
